@@ -6,8 +6,8 @@ import os
 ID = "C01"
 LEVEL = "proof"
 HERE = os.path.dirname(os.path.abspath(__file__))
-_PCXX = os.path.join(HERE, "pcxx.py")          # parallel compile wrapper: the same source in 11 parts
-_NPARTS = "-DC01_NPARTS=11"
+_PCXX = os.path.join(HERE, "pcxx.py")          # parallel compile wrapper: the same source in 14 parts
+_NPARTS = "-DC01_NPARTS=14"
 HARNESSES = [
     {"name": "main", "src": "harness.cpp", "compiler": _PCXX, "flags": ["-O1", "-DTETL_ENABLE_CONTRACT_CHECKS=1", _NPARTS]},
     {"name": "asan", "src": "harness.cpp", "compiler": _PCXX,
@@ -47,7 +47,68 @@ CAPS = {
     "iv_pod": [3, 16], "iv_tdc": [1, 3, 4], "sv_tdc": [3, 4],
     # KeyTag: records ordered by key only (operator< coarser than operator==)
     "sv_kt": [2, 3, 8], "st_kt": [3, 4],
+    # element types with an initializer_list constructor next to a two-argument one (T(a, b) != T{a, b}): std::vector<int>,
+    # a non-trivial and a trivial record
+    "sv_vi": [3, 4], "st_vi": [3], "iv_vi": [3], "sv_iln": [3], "st_iln": [3], "iv_iln": [3], "sv_ilt": [3], "st_ilt": [3], "iv_ilt": [3],
+    # arithmetic element types other than int (etl::erase / erase_if with a value / parameter of another arithmetic type)
+    "sv_ll": [3, 8], "sv_dbl": [3, 8],
 }
+TWO_ARG = ("vi", "iln", "ilt")          # flavours whose element type has T(a, b)
+ARITH = ("sv_int", "sv_ll", "sv_dbl")   # flavours whose element type is arithmetic
+# (a, b) of the two-argument emplace operations.  For std::vector<int> the b of a multi-element result is one value larger
+# than every other element in use, so that the lexicographic order of the elements is the order of their codes
+AB = [(2, 70), (3, 70), (1, 5), (0, 9), (2, 2)]
+# value types of erh / eih by number (harness.cpp with_value): (bits, signed, is_double)
+VTY = {1: (8, False, False), 2: (8, True, False), 3: (16, True, False), 4: (32, False, False), 5: (64, True, False),
+       6: (64, True, True), 7: (32, True, False), 8: (64, False, False), 9: (16, False, False)}
+SELF_TY = {"sv_int": 7, "sv_ll": 5, "sv_dbl": 6}
+
+
+def _to_ity(ty, x):
+    bits, signed, _ = ty
+    x %= 1 << bits
+    return x - (1 << bits) if signed and x >= (1 << (bits - 1)) else x
+
+
+def _common(a, b):
+    pa = (32, True, False) if a[0] < 32 else a
+    pb = (32, True, False) if b[0] < 32 else b
+    if pa[1] == pb[1]:
+        return pb if pa[0] < pb[0] else pa
+    sg, un = (pa, pb) if pa[1] else (pb, pa)
+    return sg if un[0] < sg[0] else un
+
+
+def held(fl, code):
+    """the number an element code stands for (model: dec_id / dec_ll; doubles count quarters)"""
+    return (code // 16) * 2 ** 32 + code % 16 if fl == "sv_ll" else code
+
+
+def cxx_eq(fl, k, code, x):
+    """python mirror of ModelArg.cxx_eq, only to steer generation"""
+    t = VTY[SELF_TY[fl]]; u = VTY[k if k != 0 else SELF_TY[fl]]
+    item = held(fl, code)
+    if t[2]:
+        return item == (x if u[2] else 4 * x)
+    if u[2]:
+        return 4 * item == x
+    c = _common(t, u)
+    return _to_ity(c, item) == _to_ity(c, x)
+
+
+def cxx_conv(fl, k, code):
+    t = VTY[SELF_TY[fl]]; u = VTY[k if k != 0 else SELF_TY[fl]]
+    item = held(fl, code)
+    if t[2]:
+        return item if u[2] else _to_ity(u, int(item / 4))
+    return 4 * item if u[2] else _to_ity(u, item)
+
+
+def ctor2(fl, a, b):
+    if fl.endswith("_vi"):
+        return 0 if a <= 0 else b if a == 1 else 1000 * a + 8 * b
+    return 1000 * a + b
+
 # values of the KeyTag flavours: element = 16 * key + tag; two tags of key 1, one of key 2 (and two more in the random part)
 KT_VALS = [17, 18, 33]
 # operations that need a copyable element type (the harness answers `unsupported-step` for them on MoveOnly)
@@ -73,8 +134,9 @@ def kind(fl):
 class Sim:
     """python mirror of the list semantics, only to steer generation (validity / sizes)"""
 
-    def __init__(self, cap):
+    def __init__(self, cap, fl="sv_int"):
         self.cap = cap
+        self.fl = fl
         self.v = [[], []]
 
     def mutate(self, x, val):
@@ -101,6 +163,21 @@ class Sim:
         if name in ("pb", "pbr", "eb", "ebr", "upb", "uem", "upr"):
             if room < 1: return False
             x.append(a[1])
+        elif name in ("eb2", "ue2"):
+            if room < 1: return False
+            x.append(ctor2(self.fl, a[1], a[2]))
+        elif name == "te2":
+            if room >= 1: x.append(ctor2(self.fl, a[1], a[2]))
+        elif name == "em2":
+            if not (0 <= a[1] <= sz) or room < 1: return False
+            x.insert(a[1], ctor2(self.fl, a[2], a[3]))
+        elif name == "erh":
+            v[tg] = [e for e in x if not cxx_eq(self.fl, a[1], e, a[2])]
+        elif name == "eih":
+            def ph(e):
+                k = cxx_conv(self.fl, a[1], e) // 16
+                return [(k % 2) == 0, k == 1, k < 2, True, False][a[2]]
+            v[tg] = [e for e in x if not ph(e)]
         elif name in ("tpb", "tem", "tpr"):
             if room >= 1: x.append(a[1])
         elif name == "fil":
@@ -207,6 +284,14 @@ def sv_single_ops(t, sz, cap, vals):
     for name in ("pb", "eb", "ebr"):
         ops.append(f"{name} {t} {x}")
     ops.append(f"pb {t} {x + 1}")      # even values: push_back of an lvalue, odd ones: of an rvalue
+    # two constructor arguments (flavours with T(a, b) only, see supported())
+    for a, b in AB:
+        ops.append(f"eb2 {t} {a} {b}")
+        for pos in range(-1, sz + 2):
+            ops.append(f"em2 {t} {pos} {a} {b}")
+    # a value / predicate parameter of another arithmetic type (arithmetic flavours only)
+    for k in (1, 6, 5, 0):
+        ops += [f"erh {t} {k} {x}", f"erh {t} {k} {vals[1]}", f"eih {t} {k} 1", f"eih {t} {k} 2"]
     ops.append(f"pop {t}")
     for pos in range(-1, sz + 2):
         ops += [f"icr {t} {pos} {x}", f"irv {t} {pos} {x}", f"emp {t} {pos} {x}", f"era {t} {pos}"]
@@ -251,7 +336,7 @@ def sv_single_ops(t, sz, cap, vals):
 def st_single_ops(t, sz, cap, vals):
     x = vals[0]
     ops = [f"pb {t} {x}", f"pbr {t} {x}", f"eb {t} {x}", f"ebr {t} {x}", f"pop {t}", f"bk {t}", f"sbk {t} 52", f"siz {t}", "swp", "fsw", "rel",
-           f"cpc {t}", f"mvc {t}", f"cpa {t}", f"mva {t}", f"sca {t}"]
+           f"cpc {t}", f"mvc {t}", f"cpa {t}", f"mva {t}", f"sca {t}"] + [f"eb2 {t} {a} {b}" for a, b in AB]
     for n in range(0, cap + 2):
         ops += [f"fcc {t} {L((vals * 3)[:n])}", f"fcr {t} {L((vals * 3)[:n])}"]
     return ops
@@ -262,6 +347,8 @@ def iv_single_ops(t, sz, cap, vals):
     ops = [f"tpb {t} {x}", f"tpb {t} {x + 1}", f"tem {t} {x}", f"tpr {t} {x}", f"upb {t} {x}", f"upb {t} {x + 1}", f"uem {t} {x}", f"upr {t} {x}",
            f"pop {t}", f"clr {t}", f"fr {t}", f"bk {t}", f"ivc {t}", f"ivm {t}", f"cpa {t}", f"mva {t}", f"sca {t}", f"sma {t}",
            f"sfr {t} 52", f"sbk {t} 52", f"dat {t}", f"mxs {t}", f"cpi {t} 0 52", f"cpi {t} 1 52"]
+    for a, b in AB:
+        ops += [f"te2 {t} {a} {b}", f"ue2 {t} {a} {b}"]
     for n in range(-1, cap - sz + 2):
         ops.append(f"fil {t} {n} {x}")
     for i in range(-1, sz + 1):
@@ -282,9 +369,14 @@ def setup_ops(fl, c0, c1):
 
 
 def supported(fl, op):
+    name = op.split()[0]
+    if name in ("eb2", "em2", "te2", "ue2"):
+        return fl.split("_")[-1] in TWO_ARG
+    if name in ("erh", "eih"):
+        return fl in ARITH
     if not fl.endswith("_mov"):
         return True
-    return op.split()[0] not in (NEEDS_COPY_ST if fl == "st_mov" else NEEDS_COPY)
+    return name not in (NEEDS_COPY_ST if fl == "st_mov" else NEEDS_COPY)
 
 
 def exhaustive_single(out, fl, cap, vals, full_contents, rng=None, keep=1.0):
@@ -309,7 +401,7 @@ def exhaustive_single(out, fl, cap, vals, full_contents, rng=None, keep=1.0):
 
 def random_history(rng, fl, cap, vals, steps, want_invalid, fill_first=None):
     k = kind(fl)
-    sim = Sim(cap)
+    sim = Sim(cap, fl)
     ops = []
     if fill_first is not None:
         n = fill_first
@@ -329,11 +421,15 @@ def random_history(rng, fl, cap, vals, steps, want_invalid, fill_first=None):
                     f"pop {t}", f"clr {t}", f"fr {t}", f"bk {t}", f"at {t} {i}", f"ivc {t}", f"ivm {t}", f"cpa {t}", f"mva {t}",
                     f"sca {t}", f"sma {t}", f"sat {t} {i} {x}", f"sfr {t} {x}", f"sbk {t} {x}", f"dat {t}", f"mxs {t}",
                     f"cpi {t} {rng.randint(0, 1)} {x}", f"fil {t} {rng.randint(0, max(0, min(room, 4)) + 1)} {x}"]
+            ab = rng.choice(AB)
+            cand += [f"te2 {t} {ab[0]} {ab[1]}", f"ue2 {t} {ab[0]} {ab[1]}"] * 2
         elif k == "st":
             cand = [f"pb {t} {x}", f"pbr {t} {x}", f"eb {t} {x}", f"ebr {t} {x}", f"pop {t}", f"pop {t}", f"bk {t}", f"sbk {t} {x}", f"siz {t}", "swp", "fsw",
                     "rel", f"cpc {t}", f"mvc {t}", f"cpa {t}", f"mva {t}", f"sca {t}",
                     f"fcc {t} {L([rng.choice(vals) for _ in range(rng.randint(0, min(cap, 5)))])}",
                     f"fcr {t} {L([rng.choice(vals) for _ in range(rng.randint(0, min(cap, 5)))])}"]
+            ab = rng.choice(AB)
+            cand += [f"eb2 {t} {ab[0]} {ab[1]}"] * 3
         else:
             pos = rng.randint(0, sz)
             n = rng.randint(0, max(0, min(room, 5)))
@@ -354,11 +450,15 @@ def random_history(rng, fl, cap, vals, steps, want_invalid, fill_first=None):
                     f"rit {t} {rng.randint(0, 2)}", f"cit {t}", f"dat {t}", f"mxs {t}", f"sat {t} {i} {x}", f"sfr {t} {x}", f"sbk {t} {x}",
                     f"ctn {t} {rng.randint(0, min(cap, 6))}", f"ctv {t} {rng.randint(0, min(cap, 6))} {x}", f"ctr {t} {L(small)}",
                     f"cpi {t} {rng.randint(0, 1)} {x}", f"cte {t}"] + ([f"cta {t} 2 {x} {rng.choice(vals)}"] if cap >= 2 else [])
+            ab = rng.choice(AB)
+            cand += [f"eb2 {t} {ab[0]} {ab[1]}", f"em2 {t} {pos} {ab[0]} {ab[1]}"] * 3
+            hk = rng.choice(sorted(VTY) + [0])
+            cand += [f"erh {t} {hk} {x}", f"eih {t} {hk} {rng.randint(0, 4)}"] * 2
         cand = [o for o in cand if supported(fl, o)]
         rng.shuffle(cand)
         chosen = None
         for o in cand:
-            trial = Sim(cap); trial.v = [list(sim.v[0]), list(sim.v[1])]
+            trial = Sim(cap, fl); trial.v = [list(sim.v[0]), list(sim.v[1])]
             if trial.apply(o):
                 chosen = o
                 break
@@ -423,6 +523,54 @@ def gen(tier, rng):
         for c0 in conts:
             for c1 in conts:
                 out.append(hist(fl, cap, setup_ops(fl, c0, c1) + ["rel"]))
+    # ---- element types with an initializer_list constructor next to a two-argument one: every single operation, among
+    #      them emplace_back(a, b) / emplace(pos, a, b) / stack::emplace(a, b) / try_emplace_back(a, b) /
+    #      unchecked_emplace_back(a, b), which must construct T(a, b) - and T(x), not T{x}, for the one-argument forms
+    for fl in ("sv_vi", "sv_iln", "sv_ilt"):
+        exhaustive_single(out, fl, 3, vals, full_contents=False, rng=rng, keep=(0.35 if quick else 1.0))
+    for fl in ("st_vi", "st_iln", "st_ilt", "iv_vi", "iv_iln", "iv_ilt"):
+        exhaustive_single(out, fl, 3, vals, full_contents=not quick)
+    for fl in ("sv_vi", "sv_iln", "sv_ilt", "st_vi", "st_iln", "st_ilt", "iv_vi", "iv_iln", "iv_ilt"):
+        k = kind(fl)
+        for (a, b), (a2, b2) in itertools.product(AB, repeat=2):
+            if k == "sv":
+                for pos in (0, 1):
+                    out.append(hist(fl, 3, [f"eb2 0 {a} {b}", f"em2 0 {pos} {a2} {b2}", f"eb2 1 {a2} {b2}", "swp", f"eb2 1 {a} {b}", "dat 0", "cpc 1"]))
+            elif k == "st":
+                out.append(hist(fl, 3, [f"eb2 0 {a} {b}", f"eb2 0 {a2} {b2}", "bk 0", "pop 0", f"eb2 1 {a2} {b2}", "swp", f"eb2 1 {a} {b}", "cpc 1", "eb2 1 1 1"]))
+            else:
+                out.append(hist(fl, 3, [f"te2 0 {a} {b}", f"ue2 0 {a2} {b2}", f"te2 1 {a2} {b2}", "cpa 1", f"ue2 1 {a} {b}", f"te2 1 {a} {b}", "dat 1", "ivc 0"]))
+    # ---- etl::erase(c, value) with a value of ANOTHER arithmetic type than the elements, and erase_if with a predicate whose
+    #      parameter has another type: pools of elements that are different numbers but become equal to the value once
+    #      converted to its type (300 / 556 / -212 -> unsigned char 44; 2^32 + 1 -> int 1; 1.25 / 1.5 / 1.75 -> int 1;
+    #      -1 == 4294967295u IS true), against every value type, the elements in several orders
+    het = {
+        # flavour: (pool of element codes, [(value type, value), ...])
+        "sv_int": ([44, 300, 556, -212, 65580, -1, 7, 11],
+                   [(1, 44), (2, 44), (2, -1), (3, 44), (9, 44), (9, 65535), (4, 44), (4, 4294967295), (5, 44), (5, 4294967340), (8, 44),
+                    (8, 18446744073709551615), (6, 176), (6, 177), (7, 44), (0, 300)]),
+        # long long: code 16 * h + l = h * 2^32 + l
+        "sv_ll": ([1, 17, 33, 5, 21, 12, 257 * 16 + 1],
+                  [(7, 1), (7, 5), (4, 1), (1, 1), (3, 12), (5, 4294967297), (5, 1), (0, 8589934593), (6, 4), (8, 1), (2, 5)]),
+        # double: the code counts quarters
+        "sv_dbl": ([4, 5, 6, 7, 8, 1, 1028, 0],
+                   [(7, 1), (7, 2), (7, 0), (1, 1), (2, 1), (3, 257), (4, 1), (5, 2), (6, 5), (6, 4), (0, 7), (8, 1), (9, 1)]),
+    }
+    for fl, (pool, kxs) in het.items():
+        orders = [pool, list(reversed(pool)), pool[1::2] + pool[0::2], pool[:3], pool[3:6], [pool[0], pool[1], pool[0], pool[2], pool[0]]]
+        if not quick:
+            orders += [list(p) for p in itertools.permutations(pool[:5], 4)]
+        for k, x in kxs:
+            for c in orders:
+                c = c[:8]
+                out.append(hist(fl, 8, [f"asr 0 {L(c)}", f"erh 0 {k} {x}", f"asr 1 {L(c)}", f"eih 1 {k} {(k + len(c)) % 3}", "dat 0"]))
+            out.append(hist(fl, 3, [f"asr 0 {L(pool[:3])}", f"asr 1 {L(pool[1:4])}", f"erh 0 {k} {x}", f"erh 1 {k} {x}", f"eih 1 {k} 2"]))
+    for fl, v3 in (("sv_ll", [1, 17, 33]), ("sv_dbl", [4, 5, 16])):
+        exhaustive_single(out, fl, 3, v3, full_contents=False, rng=rng, keep=(0.2 if quick else 1.0))
+    # signed value types only: negative doubles (-1.25 -> int -1; a negative double -> unsigned is undefined, not generated)
+    for k, x in ((7, -1), (5, -1), (3, -2), (2, -1), (6, -5)):
+        for c in ([-4, -5, -6, -8, 4], [-8, -7, -5, -4, -3, 0], [-5, -4]):
+            out.append(hist("sv_dbl", 8, [f"asr 0 {L(c)}", f"erh 0 {k} {x}", f"asr 1 {L(c)}", f"eih 1 {k} 0", "dat 0"]))
     # ---- inplace_vector and stack: exhaustive short histories
     iv_alpha = ["tpb 0 2", "tem 0 3", "upb 0 4", "pop 0", "clr 0", "bk 0", "at 0 1", "ivc 0", "ivm 0", "tpr 1 6", "mva 0", "cpa 1", "sbk 0 9"]
     st_alpha = ["pb 0 1", "eb 0 2", "pop 0", "bk 0", "swp", "rel", "cpc 0", "pbr 1 3", "mva 0", "cpa 1", "ebr 0 4"]
@@ -539,7 +687,7 @@ def gen(tier, rng):
     n_rand = 2600 if quick else (20000 if tier == "search" else 120000)
     flavours = ["sv_int"] * 5 + ["sv_trk"] * 2 + ["sv_nxc", "sv_str", "sv_mov", "sv_mov", "sv_pod", "sv_tdc"] + \
                ["stack", "stack", "st_trk", "st_str", "st_mov"] + ["iv_int"] * 3 + ["iv_trk", "iv_nxc", "iv_mov", "iv_str", "iv_pod", "iv_tdc"] + \
-               ["sv_kt", "sv_kt", "st_kt"]
+               ["sv_kt", "sv_kt", "st_kt"] + ["sv_vi", "sv_iln", "sv_ilt", "st_vi", "st_iln", "st_ilt", "iv_vi", "iv_iln", "iv_ilt", "sv_ll", "sv_dbl"]
     for _ in range(n_rand):
         fl = rng.choice(flavours)
         cap = rng.choice([c for c in CAPS[fl] if c < 60000])
@@ -550,7 +698,8 @@ def gen(tier, rng):
             # go to the size-type boundary first
             fill = rng.choice([cap - 1, cap, cap - 2])
             steps = min(steps, 12)
-        out.append(random_history(rng, fl, cap, (KT_VALS + [1, 34]) if fl.endswith("_kt") else vals, steps, want_invalid, fill))
+        rvals = (KT_VALS + [1, 34]) if fl.endswith("_kt") else {"sv_ll": [1, 17, 33], "sv_dbl": [4, 5, 16]}.get(fl, vals)
+        out.append(random_history(rng, fl, cap, rvals, steps, want_invalid, fill))
     return out
 
 
